@@ -392,6 +392,42 @@ def shard(ctx):
                 if st.get("s" + tag) != st.get("t" + tag):
                     ctx.violation("keyvar:matrix:some", "`some xs[*].%%k` gives %s, `some xs[*].k` gives %s (clause #%s)" % (st.get("s" + tag), st.get("t" + tag), tag),
                                   {"kind": "pair", "a": "", "b": text, "data": kdocs, "map": {"s" + tag: "t" + tag}})
+    # ---- the right-hand side of a `keys` filter taken from a literal-bound variable == the literal written in place
+    if ctx.mine(4):
+        mdoc = json.dumps({"m": {"web": 1, "db": 2, "log": 3, "lot": 3}, "me": {}})
+        rhss = ["'web'", "'nokey'", "['web', 'db']", "['nokey', 'log']", "/^lo/", "/zz/", "['web', 5]"]
+        tails = ["!empty", "empty", "== 1", "in [1, 2]", "{\n        this >= 2\n    }"]
+        names, lines = [], []
+        for ri, rhs in enumerate(rhss):
+            for op in ("==", "!=", "in", "not in"):
+                if op in ("in", "not in") and not rhs.startswith("["):
+                    continue
+                if op in ("==", "!=") and rhs.startswith("["):
+                    continue
+                for ti, tail in enumerate(tails):
+                    tag = "%d%s%d" % (ri, {"==": "e", "!=": "n", "in": "i", "not in": "x"}[op], ti)
+                    names.append(tag)
+                    lines.append("rule a%s {\n    m[ keys %s %s ] %s\n}\n" % (tag, op, rhs, tail))
+                    lines.append("rule f%s {\n    m[ keys %s %%kf%d ] %s\n}\n" % (tag, op, ri, tail))
+                    lines.append("rule r%s {\n    let kr = %s\n    m[ keys %s %%kr ] %s\n}\n" % (tag, rhs, op, tail))
+                    lines.append("rule w%s {\n    when m exists {\n        let kw = %s\n        m[ keys %s %%kw ] %s\n    }\n}\n" % (tag, rhs, op, tail.replace("\n    ", "\n        ")))
+        head = "".join("let kf%d = %s\n" % (ri, rhs) for ri, rhs in enumerate(rhss))
+        res = ctx.w.run({"k": "rc", "data": mdoc, "rules": head + "".join(lines), "verbose": False})
+        kind, st, _ = obs.rc_statuses(res)
+        ctx.res.cases += 1
+        if kind != "ok":
+            ctx.inconclusive("crash" if core.crash_signature(res) else "keys-filter-matrix-does-not-evaluate")
+        else:
+            for tag in names:
+                base_st = st.get("a" + tag)
+                for pfx, where in (("f", "file"), ("r", "rule"), ("w", "when-block")):
+                    ctx.res.counts["keysfilter-rhs-matrix"] += 1
+                    ctx.res.distinct.add(("keysfilter-rhs", where, tag[1], base_st))
+                    if st.get(pfx + tag) != base_st:
+                        ctx.violation("keysfilter-rhs:matrix:%s" % where, "a keys filter against a variable bound (at %s level) to a literal gives %s, against the literal in place %s (clause #%s)" % (
+                            where, st.get(pfx + tag), base_st, tag),
+                                      {"kind": "pair", "a": "".join(l for l in lines if l.startswith("rule a%s " % tag)),
+                                       "b": head + "".join(l for l in lines if l.startswith("rule %s%s " % (pfx, tag))), "data": mdoc, "map": {pfx + tag: "a" + tag}})
     # ---- a LIST of key names bound to a variable (`x.%kl`): the verdict of the same keys written one by one (absent keys included)
     if ctx.mine(3):
         kdoc = {"x": {"em": {}, "es": "", "l": [1, 2], "m": {"a": 1}, "s": "ab", "n": 5, "n2": 5, "nul": None}}
